@@ -1,5 +1,6 @@
 import MtailVerif.Proofs.Pipeline
 import MtailVerif.Proofs.Witness
+import MtailVerif.Proofs.Skeletons
 /-! # C19 — One-shot runs process every line once and then terminate
 
     Partial by nature: the theorems quantify over all schedules of the transition system in
@@ -61,5 +62,13 @@ theorem witness_result_schedule_independent (g : List (Nat × Nat)) (i : Nat) (n
 example : (runSched (init [[[97]], [[98], [99]]] 2)
     [.emit 1, .process 0, .emit 0, .process 1, .process 1, .emit 1, .process 0, .process 0, .process 1]).map
       (fun s => (final s, s.arrived)) = some (true, [(1, [98]), (0, [97]), (1, [99])]) := by decide
+
+/-! ### regenerated control skeletons (written by lib/wire_skeletons.py) -/
+/-- Obligations over regenerated facts: the functions this property's model stands for have the
+    control skeleton the model was written against (`Proofs/Skeletons.lean`, one `rfl` per function
+    or clause; DESIGN.md §11.6a) -/
+theorem streams_skeletons : Skeletons.StreamsShape := Skeletons.streams_shape
+theorem line_skeletons : Skeletons.LineShape := Skeletons.line_shape
+theorem dispatch_skeletons : Skeletons.DispatchShape := Skeletons.dispatch_shape
 
 end MtailVerif.C19
